@@ -7,6 +7,12 @@ HERE = os.path.dirname(os.path.dirname(os.path.abspath(__file__)))
 
 # id -> (engine, technique, level text, level note, design ref)
 CHECKS = {
+    "C04": ("XH", "CrossHair symbolic execution of the real tokenizer/parser/get_orig_text with the regex engine stubbed (symbolic match ends and token kinds, symbolic line strings); "
+            "solver-enumerated concrete texts through the real regex as second front end and as replay",
+            "bounded model checking: all line lengths, token boundaries, blank lines, skipped text and span closings within <= 3 lines / <= 3-5 matcher calls (symbolic), "
+            "plus every concrete text of <= 7 symbols over a 6-symbol alphabet through the real `re` tokenizer (str and list-of-lines input)",
+            "regex engine is an environment stub in the symbolic part (contract: match starts at the requested column, non-empty); stub spaces may not exhaust in quick (reported)",
+            "DESIGN.md 3/C04"),
     "C01": ("XH", "CrossHair-driven exhaustive enumeration (z3 choice variables) of grammar-family holes; real parser on ALL token strings up to the length bound, independent derivation checker",
             "bounded exhaustive exploration with exhaustion certificate: every instantiation of 17 shape families x both smart_factorization settings x all token strings of length <= 4 (quick) / 6 (thorough)",
             "structural property: the solver enumerates; step budget per parse; real tokenizer with synonym and keyword terminals", "DESIGN.md 3/C01"),
